@@ -222,7 +222,7 @@ class UpdateTimeout(Exception):
     """An update used more than UPDATE_LIMIT_S of CPU time (a normal update: milliseconds)."""
 
 
-UPDATE_LIMIT_S = 5.0
+UPDATE_LIMIT_S = 20.0
 
 
 class time_limit:
